@@ -32,6 +32,7 @@ LANDMARKS = {
     "same-name-skip": ("find_clashes", "if require_same_atom_name is True and ai.name != aj.name:"),
     "distance-skip": ("find_clashes", "if distance > sum_vdw_radii + molprobity_factor:"),
     "csv": ("main", "writer.writerow("),
+    "cli-between-chains": ("main", "Clashes found between chains"),
 }
 RADII = {"C": 0.6, "N": 0.54, "O": 0.53, "P": 0.94}
 EPS = 1e-6
@@ -264,6 +265,25 @@ def crowded(seed, i):
     return tertiary.Structure3D(residues)
 
 
+def shifted_copies(seed, i, ncopies):
+    """Copies of one nucleotide translated by about 1 A each and stored as chains A, B, ..."""
+    from rnapolis import tertiary
+    from rnapolis.common import ResidueAuth
+
+    rng = random.Random(f"{seed}:C17:shifted:{i}")
+    src = gen3d.load(rng.choice(["tests/1A1T_1_B.cif", "tests/1E7K_1_C.cif", "tests/184D.cif"]), 1)
+    base = rng.choice([r for r in src.residues if len(r.atoms) > 15])
+    v = np.array([rng.gauss(0, 1) for _ in range(3)])
+    v /= np.linalg.norm(v)
+    residues = []
+    for c in range(ncopies):
+        auth = ResidueAuth("ABCD"[c], 7, None, base.name)
+        d = v * c * rng.uniform(0.9, 1.4)
+        atoms = tuple(tertiary.Atom(None, None, auth, 1, a.name, a.x + d[0], a.y + d[1], a.z + d[2], 1.0) for a in base.atoms)
+        residues.append(tertiary.Residue3D(None, auth, 1, base.one_letter_name, atoms))
+    return tertiary.Structure3D(residues)
+
+
 def run_all_options(rec, structure):
     from rnapolis import clashfinder
 
@@ -290,9 +310,16 @@ def run_cli(rec, seed, i):
     from rnapolis import clashfinder
 
     rng = random.Random(f"{seed}:C17:cli:{i}")
-    fn = rng.choice(["tests/1A1T_1_B.cif", "tests/1E7K_1_C.cif", "tests/184D.cif", "tests/4WTI_1_T-P.cif", "tests/1DFU_1_M-N.cif"])
-    s = gen3d.load(fn, 1)
-    s = gen3d.apply_ops(s, [{"op": "scale", "f": rng.uniform(0.7, 0.9)}, {"op": "round", "decimals": 3}])
+    # every run sees the two-chain files (clashes between chains) as well as the one-chain ones
+    fn = ["tests/4WTI_1_T-P.cif", "tests/1A1T_1_B.cif", "tests/1DFU_1_M-N.cif", "tests/1E7K_1_C.cif", "tests/184D.cif"][i % 5]
+    if i % 4 == 3:
+        # nearly superposed copies of one nucleotide stored as chains A, B, ...: clashes BETWEEN chains
+        # (copies are 0.9-1.4 A apart: closer than 0.5 A the reader itself would drop them)
+        s = gen3d.apply_ops(shifted_copies(seed, i, rng.randint(2, 4)), [{"op": "round", "decimals": 3}])
+        fn = f"shifted-copies-{i}"
+    else:
+        s = gen3d.load(fn, 1)
+        s = gen3d.apply_ops(s, [{"op": "scale", "f": rng.uniform(0.7, 0.9)}, {"op": "round", "decimals": 3}])
     rows = emit.rows_from_structure(s)
     occs = [1.0, 1.0, 0.5, 0.5, 0.3, 0.7, 0.0]
     for r in rows:
